@@ -5,6 +5,20 @@ import json, os
 V = os.path.dirname(os.path.dirname(os.path.abspath(__file__)))
 TB = "pyvc (symbolic executor, numpy shim, mirror loader) and z3/cvc5 are trusted; float64 treated as exact reals; external libraries (numpy kernels beyond the shim's definitional semantics, scipy, qhull, rtree, networkx, shapely) are assumed contracts"
 CLAIMED = {
+    "C04": dict(
+        category="proof",
+        text="transformations.transform_points is proved equal to M.p+t for every point count N (symbolic length) and every real matrix in 2-D and 3-D, with and without translation, including the identity shortcut and its 1e-8 slack; the inverse and composition laws are lemmas over that contract. flips_winding <=> det<0 for every random draw is in the thorough tier (hint lemmas: adjugate certificates). The behaviour of the real classes (Trimesh, PointCloud, Path2D/3D, Scene, VoxelGrid, primitives) under a fixed family of matrices (rigid, scale, mirror, non-uniform, shear, near-identity) is a bounded stand-in: vertices, winding flip iff det<0, attributes, |det| volume, centre of mass, s^2 area, s^5 R I R^T inertia, inverse, composition.",
+        design_ref="DESIGN.md §4 C04",
+        note=TB + "; class-level clauses are bounded (fixed family), not proved.",
+        technique="contract-based deductive verification (lambda-array symbolic execution, z3/cvc5) + bounded contract evaluation on the real classes",
+    ),
+    "C06": dict(
+        category="proof",
+        text="grouping.hashable_rows is proved injective and equality-preserving on int64 rows of 1-4 columns for ALL 2^64 values per element (z3 bit-vectors, the column loop executed), float_to_int against the rounding definition; group, unique_rows (both orders), group_rows (with/without require_count), unique_ordered, unique_bincount, merge_runs, unique_value_in_row, blocks (incl. wrap/only_nonzero), group_min are proved against direct element-by-element definitions for all integer values at small fixed lengths (bounded shape, every ordering/equality pattern explored) with hashable_rows replaced by its proved contract; the same contract texts are then evaluated exhaustively on the real code over small alphabets and at the bit-packing limits.",
+        design_ref="DESIGN.md §4 C06",
+        note=TB + "; array lengths 3-4 are a stated bound for all functions except hashable_rows/float_to_int (row-local).",
+        technique="contract-based deductive verification (symbolic execution with BitVec(64)/Int, z3) + exhaustive small-scope contract evaluation on the real code",
+    ),
     "C03": dict(
         category="proof",
         text="The real triangles.cross / area / mass_properties and inertia.transform_inertia are executed on an (N,3,3) array with N symbolic; every clause (volume, mass, centre of mass incl. the |V|<tol.zero branch and the override, inertia = density*J(raw moments, centre) i.e. the parallel-axis step, symmetry, density linearity, rotation and parallel-axis law for frames) is discharged for all N and all real coordinates against a spec generated from the Dirichlet simplex formula.",
